@@ -229,9 +229,38 @@ def float_from_dump(d):
         return struct.unpack(">f", bytes.fromhex(d[1:]))[0]
     return struct.unpack(">d", bytes.fromhex(d[1:]))[0]
 
+# ARDUINOJSON_USE_DOUBLE=0: the property's 1e-13 clause and its 1e-300..1e300 window presuppose doubles; with floats only
+# the rule applied is: in the normal binary32 range a finite value within 3e-6 (dropped 8th digit + conversion),
+# outside it infinity / zero / a subnormal of the right magnitude
+FLOAT_ONLY = False
+
+def check_number_float_only(lit, d, v):
+    if d[0] != "F":
+        return f"literal {lit} -> {d}, expected a float (doubles disabled)"
+    x = float_from_dump(d)
+    av = abs(v)
+    if av == 0:
+        return None if x == 0 else f"literal {lit} (zero) -> {x!r}"
+    if math.isnan(x):
+        return f"literal {lit} -> NaN"
+    if x != 0 and not math.isinf(x) and (x < 0) != (v < 0):
+        return f"literal {lit} -> wrong sign {x!r}"
+    if Fraction(2) ** -126 <= av <= Fraction(3 * 10 ** 38):
+        if math.isinf(x):
+            return f"literal {lit} -> infinity"
+        err = abs(Fraction(x) - v)
+        return None if err <= Fraction(3, 10 ** 6) * av else f"literal {lit} -> {x!r}: relative error {float(err / av):.3g} > 3e-6 (float only)"
+    if av > Fraction(3 * 10 ** 38):
+        return None if math.isinf(x) or abs(Fraction(x) - v) <= Fraction(3, 10 ** 6) * av else f"literal {lit} -> {x!r}: wrong magnitude"
+    return None if abs(x) < 1.2e-38 or abs(Fraction(x) - v) <= Fraction(3, 10 ** 6) * av else f"literal {lit} -> {x!r}: wrong magnitude"
+
 def check_number(lit, d):
     """C01/C12 accuracy rule for one literal against the dumped number; returns None if fine or a
     message"""
+    if FLOAT_ONLY:
+        v0 = lit_fraction(lit)
+        if not (all(c in "-0123456789" for c in lit) and -2 ** 63 <= v0 < 2 ** 64):
+            return check_number_float_only(lit, d, v0)
     is_int_lit = all(c in "-0123456789" for c in lit)
     v = lit_fraction(lit)
     if is_int_lit and -2 ** 63 <= v < 2 ** 64:
